@@ -186,6 +186,15 @@ def run(ctx):
              {"kind": "error", "id": mid}),
             ("create_request(progress_token)", lambda: J.create_request("tools/call", dict(p), id=mid, progress_token=mid),
              {"kind": "request", "id": mid}),
+            # the classes instantiated directly, relying on every declared default
+            ("JSONRPCRequest()", lambda: J.JSONRPCRequest(id=mid, method="tools/call", params=dict(p)),
+             {"kind": "request", "id": mid, "method": "tools/call", "params": p}),
+            ("JSONRPCNotification()", lambda: J.JSONRPCNotification(method="notifications/x", params=dict(p)),
+             {"kind": "notification", "method": "notifications/x", "params": p}),
+            ("JSONRPCResponse()", lambda: J.JSONRPCResponse(id=mid, result=dict(p)), {"kind": "response", "id": mid, "result": p}),
+            ("JSONRPCError()", lambda: J.JSONRPCError(id=mid, error={"code": -32000, "message": "m"}), {"kind": "error", "id": mid}),
+            ("JSONRPCMessage()", lambda: J.JSONRPCMessage(id=mid, method="tools/call", params=dict(p)),
+             {"kind": "request", "id": mid, "method": "tools/call", "params": p}),
         ):
             try:
                 obj = mk()
@@ -426,6 +435,10 @@ def wire_forms(ctx, payloads, ids):
                         (lambda: J.JSONRPCMessage.create_notification("notifications/y", dict(p)), {"kind": "notification", "params": p}),
                         (lambda: J.create_response(mid, dict(p)), {"kind": "response", "id": mid, "result": p}),
                         (lambda: J.JSONRPCMessage.create_request("x/y", None, id=mid), {"kind": "request", "id": mid}),
+                        (lambda: J.JSONRPCRequest(id=mid, method="tools/call", params=dict(p)), {"kind": "request", "id": mid, "params": p}),
+                        (lambda: J.JSONRPCNotification(method="notifications/z", params=dict(p)), {"kind": "notification", "params": p}),
+                        (lambda: J.JSONRPCResponse(id=mid, result=dict(p)), {"kind": "response", "id": mid, "result": p}),
+                        (lambda: J.JSONRPCMessage(id=mid, method="a/b"), {"kind": "request", "id": mid}),
                         (lambda: J.create_error_response(mid, -32001, "e", data=dict(p) or None), {"kind": "error", "id": mid})):
             try:
                 msgs.append(mk())
